@@ -854,7 +854,7 @@ pub fn run(r: &Run) {
     r.prop("mutated-streams", r.tier.pick(120_000, 4_000_000), || arb_case(false), check);
     r.prop("valid-streams-fragmented", r.tier.pick(20_000, 500_000), || arb_case(true), check);
     r.assume(BURST_RULE);
-    r.prop("session-burst", r.tier.pick(1_500, 40_000), arb_burst, check_burst);
+    r.slow(|| r.prop("session-burst", r.tier.pick(1_500, 40_000), arb_burst, check_burst));
 }
 
 pub fn replay(sub: &str, case: &Value) -> Result<CheckResult, String> {
